@@ -1,8 +1,10 @@
 import MoneroModel.Gen.Amount
 /-! Model of the arithmetic of `Amount` (u64) and `SignedAmount` (i64) in src/util/amount.rs. The *delegation
 structure is generated*: which std method each `checked_*` calls, which checked method each operator `expect`s, which
-operator each `*_assign` uses (`Gen.u_*`, `Gen.s_*`). Conversions and `positive_sub` are modelled by hand; the
-translator verifies that their bodies still have the reviewed shape (`Gen.shape_*`). -/
+operator each `*_assign` uses (`Gen.u_*`, `Gen.s_*`). Conversions, `positive_sub`, `checked_abs`, `abs` and `signum` are
+modelled by hand (bodies quoted at the definitions). Their tie to the source is the differential run; the translator additionally
+REPORTS whether each body still has the quoted token shape (`Gen.extracted_shape_*`, shown in the evidence) — no theorem rests on
+that report, because a differently structured body is not a different behaviour. -/
 namespace Monero
 inductive Res | val (x : Int) | panic deriving DecidableEq, Repr
 
@@ -48,14 +50,21 @@ def toUnsigned (a : Int) : Option Int := if a < 0 then none else some a
 def positiveSub (a b : Int) : Option (Option Int) :=
   if a < 0 ∨ b < 0 ∨ b > a then some none else amtChecked true .sub a b
 
-/-! Arithmetic of the same impl outside the list of the property statement (added; hand-modelled). -/
+/-! Arithmetic of the same impl outside the list of the property statement (added; hand-modelled; the translator reports in
+`Gen.extracted_shape_SignedAmount_{checked_abs,abs,signum}` whether the three bodies still read as quoted here). -/
 /-- `SignedAmount::checked_abs` (`self.0.checked_abs().map(SignedAmount)`): `None` exactly at `i64::MIN` -/
 def checkedAbs (a : Int) : Option Int := TyI64.chk (a.natAbs : Int)
-/-- `SignedAmount::abs` (`SignedAmount(self.0.abs())`, a plain `i64::abs`) AS COMPILED WITH OVERFLOW CHECKS (the harness
-profile): panics at `i64::MIN`. In a build without overflow checks the same call returns `i64::MIN` (`absUnchecked`). -/
-def absOp (a : Int) : Res := match checkedAbs a with | some v => .val v | none => .panic
-/-- `i64::abs` without overflow checks: two's-complement wrap of `|a|` -/
-def absUnchecked (a : Int) : Int := TyI64.wrap (a.natAbs : Int)
+/-- outcome of a std operation whose behaviour on overflow depends on the build profile: a value, or the panic that the COMPILER
+inserts when the calling crate is built with overflow checks (`attempt to negate with overflow`) — not a panic of the library -/
+inductive PlainRes | val (x : Int) | overflowPanic deriving DecidableEq, Repr
+/-- `SignedAmount::abs` = `SignedAmount(self.0.abs())`: a PLAIN `i64::abs` (std: `if self.is_negative() { -self } else { self }`,
+`#[rustc_inherit_overflow_checks]`), NOT derived from `checked_abs`. The negation overflows exactly at `i64::MIN`; what happens
+there is decided by the profile the crate is compiled with: with overflow checks (`overflowChecks = true`; the harness profile and
+Cargo's `dev` / `test` profiles) the compiler-inserted check panics; without them (Cargo's default `release` profile) the
+two's-complement negation wraps and `abs` RETURNS `i64::MIN` — a negative "absolute value". -/
+def absPlain (overflowChecks : Bool) (a : Int) : PlainRes :=
+  if TyI64.fits (a.natAbs : Int) then .val (a.natAbs : Int)
+  else if overflowChecks then .overflowPanic else .val (TyI64.wrap (a.natAbs : Int))
 /-- `SignedAmount::signum` (`self.0.signum()`) -/
 def signum (a : Int) : Int := if a > 0 then 1 else if a < 0 then -1 else 0
 end Monero
